@@ -83,7 +83,7 @@ CHECKS['C16'] = ('fault_enumeration', 'bounded exhaustive enumeration of collect
     'Trusts the model in vk/checks/c16.py; one open known finding (failure while the consumer of first() is in its loop body).',
     'DESIGN.md section 3 C16')
 CHECKS['C20'] = ('exploration', 'complete enumeration of the (operation, immediately-completable state) table x competitors x actor position on the real kernel; activation-span monitor',
-    'For every operation the property lists and every state in which it can complete without waiting (38 rows, ~90 judged operations), next to 1 and 2 competing runnable activities and with the actor spawned first and last, '
+    'For every operation the property lists and every state in which it can complete without waiting (59 rows, ~120 judged operations), next to 1 and 2 competing runnable activities and with the actor spawned first and last, '
     'the operation must span at least two activations of the loop (whose FIFO order is monitored on every execution) or advance the clock, and every competitor that is queued at that moment must get a turn before it completes.',
     'Completeness of the table is by construction from the property text and the anchors; rows for a closed-and-empty stream and a free Lock are deliberately absent.',
     'DESIGN.md section 3 C20')
@@ -94,22 +94,22 @@ CHECKS['C03'] = ('fault_enumeration', 'exhaustive fault injection (cancel at eve
     'DESIGN.md section 3 C03')
 CHECKS['C02'] = ('model_checking', 'explicit-state BFS over the two real wait-queue classes against a reference; differential execution of an enumerated corpus under 10 interpreter configurations (wait-queue backend, -O, hash seeds, heap perturbation, cyclic collector never / after every activation) and under all iteration orders of injected unordered containers',
     '(a) all push/pop sequences to depth 7/10 are applied in lock-step to HQWaitQueue, SDWaitQueue and a dict reference with state deduplication on canonical content; (b) every corpus program (strided union of all native families), fault-free and with a cancel at every activation boundary, '
-    'is executed in fresh processes under {heap, SD} x {debug, -O} x PYTHONHASHSEED {0,1,2} x 3 heap-perturbation patterns and the full log/activation digests must be identical; (c) set/frozenset/WeakSet constructed by usim code are replaced by containers whose iteration order the explorer chooses (all orders up to 3 elements) and the digests must not depend on it; '
+    'is executed in fresh processes under {heap, SD} x {debug, -O} x PYTHONHASHSEED {0,1,2} x 3 heap-perturbation patterns x cyclic collector never / after every activation and the full log/activation digests must be identical; (c) set/frozenset/WeakSet constructed by usim code are replaced by containers whose iteration order the explorer chooses (all orders up to 3 elements) and the digests must not depend on it; '
     'the FIFO order of the loop is monitored on every execution of every check.',
     'Address-dependent layout itself is not enumerable; its effect (iteration order) is. Set literals would escape the injection and are listed by an AST scan in the evidence (none today).',
     'DESIGN.md section 3 C02')
 CHECKS['C17'] = ('exploration', 'complete enumeration of (multiset of child failure types, handler specialisation, matching mechanism) over a class hierarchy vs. a reference predicate',
-    'Over a hierarchy with subclass relations, equally named distinct classes and nested Concurrent types, every multiset of <= 3 children x every handler of <= 3 types (with/without ...) and bare Concurrent x {isinstance, issubclass, real except clause} (230k combinations) is compared with a reference predicate written from the statement; '
-    'class identity under permutation/duplication, Concurrent[A,B] is Concurrent[B,A], and flattened() leaf order are checked; everything is repeated with the specialisation frozenset iterating forwards and backwards.',
+    'Over a hierarchy with subclass relations, equally named distinct classes and nested Concurrent types, every multiset of <= 3 children x every handler of <= 3 types (with/without ...) and bare Concurrent x {isinstance, issubclass, real except clause} (about 390k combinations per iteration-order policy) is compared with a reference predicate written from the statement; '
+    'class identity under permutation/duplication, Concurrent[A,B] is Concurrent[B,A], and flattened() leaf order are checked; everything is repeated with the specialisation frozenset iterating forwards, backwards and with neighbouring containers in opposite directions.',
     'The reference predicate is the specification. One open known finding: the except clause ignores __subclasscheck__ (CPython), in the direction rule-says-match/not-caught only.',
     'DESIGN.md section 3 C17')
 CHECKS['C15'] = ('model_checking', 'exhaustive enumeration of run histories on one thread, and stateless exploration of ALL interleavings (bounded preemptions) of real OS threads running simulations under a controlled scheduler',
-    '(a) every sequence of <= 3/4 runs over 10 kinds (ok, failing, leaking truthy/falsy values, blocked for ever, till, nested ok/failing/leaking) is executed and time.now must raise outside every run, exceptions must be re-raised by identity, leaks reported, roots started in order at start, runs end only at quiescence, outer simulations are undisturbed by nested ones; '
+    '(a) every sequence of <= 3/4 runs over 22 kinds (ok, failing with 4 exception types, leaking truthy/falsy values, blocked for ever, 8 till shapes, a child cancelled when it finishes, nested ok/failing/leaking) is executed and time.now must raise outside every run, exceptions must be re-raised by identity, leaks reported, roots started in order at start, runs end only at quiescence, outer simulations are undisturbed by nested ones; '
     '(b) 2-3 real threads each run a simulation while a baton-passing scheduler owns every switch (points after every activation and around StateHandler.assign); all schedules within the preemption bound are enumerated (DFS over choice prefixes) and every thread must log exactly what it logs alone and see no simulation afterwards.',
     'Switches only at the modelled points; no free-running race detection. states = complete schedules, transitions = scheduling decisions.',
     'DESIGN.md section 3 C15')
 CHECKS['C19'] = ('model_checking', 'explicit-state BFS over operation histories per resource type with state deduplication on the reference model state; every transition executed on the real usim.py resource and compared with a sequential reference model',
-    'For 13 resource configurations (Container, Store, PriorityStore, FilterStore, Resource, PriorityResource, PreemptiveResource) all histories of one operation per time step (put/get/request with every argument, cancel of every pending request, release of every user) are explored breadth-first to depth 4/6 with deduplication on the complete model state; '
+    'For 15 resource configurations (Container, Store, PriorityStore, FilterStore, Resource, PriorityResource, PreemptiveResource) all histories of one operation per time step (put/get/request with every argument, cancel of every pending request, release of every user) are explored breadth-first to depth 4/5 with deduplication on the complete model state; '
     'each transition is replayed on the real resource with every operation issued by its own SimPy process, and level/items/users/queues/grants/preemption details must equal the reference model; from every reachable state every ordered pair of operations is also issued within one time step and capacity, conservation, exactly-once hand-out and no-grantable-head-left-waiting are checked.',
     'The reference models are the specification (request-triggered service, strict FIFO heads, filter scan, (priority,time,not preempt) order, head-of-queue preemption). A cancel only removes a request.',
     'DESIGN.md section 3 C19')
